@@ -9,6 +9,9 @@ import (
 	"github.com/flant/shell-operator/pkg/config"
 	"github.com/flant/shell-operator/pkg/debug"
 	objectpatch "github.com/flant/shell-operator/pkg/kube/object_patch"
+	kemTypes "github.com/flant/shell-operator/pkg/kube_events_manager/types"
+	"github.com/flant/shell-operator/pkg/task"
+	"github.com/flant/shell-operator/pkg/task/queue"
 )
 
 // VerifAssemble mirrors Init/AssembleCommonOperator/assembleShellOperator without
@@ -27,4 +30,26 @@ func VerifAssemble(ctx context.Context, logger *log.Logger, kc *klient.Client, h
 		return nil, nil, err
 	}
 	return op, dbg, nil
+}
+
+// VerifCombine exposes the unexported combiner used by taskHandleHookRun.
+func VerifCombine(op *ShellOperator, q *queue.TaskQueue, t task.Task) *CombineResult {
+	return op.combineBindingContextForHook(op.TaskQueues, q, t, nil)
+}
+
+// VerifWrapHandlers wraps the kube-event and schedule-event callbacks of the events handler
+// (observation of the tasks it creates, in arrival order).
+func VerifWrapHandlers(op *ShellOperator, onTasks func(kind string, tasks []task.Task)) {
+	kcb := op.ManagerEventsHandler.kubeEventCb
+	scb := op.ManagerEventsHandler.scheduleCb
+	op.ManagerEventsHandler.kubeEventCb = func(ev kemTypes.KubeEvent) []task.Task {
+		ts := kcb(ev)
+		onTasks("kube", ts)
+		return ts
+	}
+	op.ManagerEventsHandler.scheduleCb = func(crontab string) []task.Task {
+		ts := scb(crontab)
+		onTasks("schedule:"+crontab, ts)
+		return ts
+	}
 }
